@@ -170,6 +170,8 @@ def gen_scenario(seed, mode, thorough, golden):
     scn = {"seed": seed, "mode": mode, "procs": procs, "pre": [], "faults": [], "stretch": [], "late": []}
     if rng.random() < 0.3:
         scn["cache_spelling"] = {str(pr["name"]): rng.choice(["symlink", "relative", "abs"]) for pr in procs}
+    # processes in which nobody configured logging (no handler on the root logger)
+    scn["bare_root"] = [str(pr["name"]) for pr in procs if rng.random() < 0.4]
     if rng.random() < 0.15:
         scn["fresh_cache_dir"] = True  # honoured only in runs without pre-state
     if rng.random() < 0.12:
@@ -201,6 +203,11 @@ def gen_scenario(seed, mode, thorough, golden):
         if rng.random() < 0.15:
             scn["faults"].append({"kind": "stall", "proc": "holder", "at": rng.randrange(0, 25),
                                   "dur": round(rng.uniform(5, 60), 2)})
+        if rng.random() < 0.12:
+            # one process cannot load the (complete) module - a transient dlopen failure; nothing
+            # the other processes are promised depends on it
+            tp = rng.choice(procs + [{"name": l["name"]} for l in scn["late"]])
+            scn["faults"].append({"kind": "load-fail", "proc": tp["name"]})
         return scn
     # ---- C15: faults inside in-flight state --------------------------------------------
     if rng.random() < 0.35:
@@ -268,6 +275,15 @@ def sweep_scenarios(golden):
                 s["faults"] = [{"kind": kind, "proc": 0, "at": k}]
                 s["sweep"] = f"{'pair' if with_waiter else 'solo'}/{kind}@{k}"
                 out.append(s)
+        if not with_waiter:
+            # the interrupted process itself asks again (a notebook after Ctrl-C)
+            for k in range(n + 1):
+                s = copy.deepcopy(base)
+                s["procs"][0]["requests"].append({"req": name, "timeout": 2})
+                s["faults"] = [{"kind": "interrupt", "proc": 0, "at": k}]
+                s["late"] = s["late"][:1]
+                s["sweep"] = f"solo-retry/interrupt@{k}"
+                out.append(s)
         for kind in ("codegen-fail", "cc-fail", "ld-fail", "marker-enospc", "kill-torn-link",
                      "kill-torn-obj", "torn-write-kill", "lock-eacces", "load-fail"):
             for variant in range(2):
@@ -284,6 +300,11 @@ def sweep_scenarios(golden):
                 s["faults"] = [f]
                 s["sweep"] = f"{'pair' if with_waiter else 'solo'}/{kind}/{variant}"
                 out.append(s)
+                if kind in ("codegen-fail", "cc-fail", "ld-fail") and not with_waiter:
+                    s2 = copy.deepcopy(s)
+                    s2["bare_root"] = ["0"]
+                    s2["sweep"] += "/bare-root-logger"
+                    out.append(s2)
     # repeated failures of the same module, then a clean request (every pair of failure kinds)
     for k1 in ("codegen-fail", "cc-fail", "ld-fail"):
         for k2 in ("codegen-fail", "cc-fail", "ld-fail"):
